@@ -13,6 +13,9 @@ import (
 )
 
 func init() {
+	mutant(&Mutant{Name: "c08-zeros-trimmed-to-nothing", Property: "C08", File: "common.go",
+		Old: "\t// trim leading zeros but leave at least one digit\n\tfor start < end-1 && num[start] == '0' {\n\t\tstart++\n\t}\n\t// trim trailing zeros\n\ti := end - 1\n\tfor ; dot < i; i-- {\n\t\tif num[i] != '0' {\n\t\t\tend = i + 1\n\t\t\tbreak\n\t\t}\n\t}\n\tif i == dot {\n\t\tend = dot\n\t\tif start == end {\n\t\t\tnum[start] = '0'\n\t\t\treturn num[start : start+1]\n\t\t}\n\t} else if start == end-1 && num[start] == '0' {\n\t\treturn num[start:end]\n\t}\n\n\t// apply precision\n\tif 0 < prec && dot <= start+prec {", New: "\t// trim leading zeros\n\tfor start < dot && num[start] == '0' {\n\t\tstart++\n\t}\n\t// trim trailing zeros\n\ti := end - 1\n\tfor ; dot < i; i-- {\n\t\tif num[i] != '0' {\n\t\t\tend = i + 1\n\t\t\tbreak\n\t\t}\n\t}\n\tif i == dot {\n\t\tend = dot\n\t\tif start == end {\n\t\t\tnum[start] = '0'\n\t\t\treturn num[start : start+1]\n\t\t}\n\t} else if start == end-1 && num[start] == '0' {\n\t\treturn num[start:end]\n\t}\n\n\t// apply precision\n\tif 0 < prec && dot <= start+prec {",
+		Rule: "R08.13", Construct: "minify.Decimal/leading zeros are skipped only while two bytes remain"})
 	mutant(&Mutant{Name: "c08-copy-of-scan-cursor-read-after-rounding", Property: "C08", File: "common.go",
 		Old: "\t\tprecEnd := start + prec\n\t\tif dot == start { // for numbers like .012\n\t\t\tdigit := start + 1\n\t\t\tfor digit < end && num[digit] == '0' {\n\t\t\t\tdigit++\n\t\t\t}\n\t\t\tprecEnd = digit + prec\n", New: "\t\tprecEnd := start + prec\n\t\tif dot == start { // for numbers like .012\n\t\t\tdigit := start + 1\n\t\t\tfor digit < end && num[digit] == '0' {\n\t\t\t\tdigit++\n\t\t\t}\n\t\t\tprecEnd = digit + prec\n\t\t\tfirstDigit = digit\n",
 		Old2: "\tn := 0\n\tnormExp := 0\n\tif dot == start {\n\t\tfor i = dot + 1; i < end; i++ {\n\t\t\tif num[i] != '0' {\n\t\t\t\tn = end - i", New2: "\tn := 0\n\tnormExp := 0\n\tif dot == start {\n\t\ti = dot + 1\n\t\tif firstDigit != -1 {\n\t\t\ti = firstDigit\n\t\t}\n\t\tfor ; i < end; i++ {\n\t\t\tif num[i] != '0' {\n\t\t\t\tn = end - i",
@@ -90,6 +93,7 @@ func runC08(c *Ctx) {
 	c.r0810(pk)
 	c.r0811(pk)
 	c.r0812(pk)
+	c.r0813(pk)
 	for _, name := range []string{"Decimal", "Number"} {
 		fd := c.fn(r2, pk, name)
 		if fd == nil {
